@@ -523,8 +523,11 @@ class StateManager:
         0.5
         """
         return {
-            "_current": self._current.copy(),
-            "_history": {k: list(v) for k, v in self._history.items()},
+            "_current": {k: self._ensure_copy(v) for k, v in self._current.items()},
+            "_history": {
+                k: [self._ensure_copy(item) for item in v]
+                for k, v in self._history.items()
+            },
             "n_dim": self.n_dim,
         }
 
